@@ -855,6 +855,9 @@ package mpb
 //@   props    C12 C02
 //@   requires b != nil
 //@   modifies sent(b.operateState), recvd()
+//@   ensures  atomic: sent(b.operateState) <= old(sent(b.operateState)) + 1
+//@   ensures  payload: sent(b.operateState) == old(sent(b.operateState)) + 1 ==> fnof(lastSent(b.operateState)) == fn("(*Bar).wSyncTable$1")
+//@   ensures  late: sent(b.operateState) == old(sent(b.operateState)) ==> called("(*bState).wSyncTable") == old(called("(*bState).wSyncTable")) + 1 && calledWith("(*bState).wSyncTable", 0) == b.bs && result == returned("(*bState).wSyncTable", 0)
 
 //@ func (heapManager).run$1
 //@   props    C14 C05
@@ -1802,25 +1805,42 @@ package mpb
 //@              && calledWith("(*Progress).UpdateBarPriority", 1) == b && calledWith("(*Progress).UpdateBarPriority", 2) == priority && calledWith("(*Progress).UpdateBarPriority", 3) == false
 
 // the callback is the caller's and must be a function (it is called on the bar goroutine)
+// adjusting the start time of the average-based estimators: one traversal with the adjusting
+// callback; the callback adjusts exactly the decorators that are average decorators, with the
+// time given (C20: the ETA / speed shown afterwards is measured from that start)
 //@ func (*Bar).DecoratorAverageAdjust
-//@   props    C02
+//@   props    C02 C20
 //@   requires b != nil
+//@   ensures  traversed: called("(*Bar).TraverseDecorators") == old(called("(*Bar).TraverseDecorators")) + 1 && calledWith("(*Bar).TraverseDecorators", 0) == b
+//@              && fnof(calledWith("(*Bar).TraverseDecorators", 1)) == fn("(*Bar).DecoratorAverageAdjust$1") && bound(calledWith("(*Bar).TraverseDecorators", 1), "start") == start
+//@ func (*Bar).DecoratorAverageAdjust$1
+//@   props    C02 C20
+//@   modifies pkgstate("decor")
+//@   ensures  adjusted: hasType(d, "decor.AverageDecorator") ==> called("decor.AverageDecorator.AverageAdjust") == old(called("decor.AverageDecorator.AverageAdjust")) + 1
+//@              && calledWith("decor.AverageDecorator.AverageAdjust", 0) == d && calledWith("decor.AverageDecorator.AverageAdjust", 1) == start
+//@   ensures  others: !hasType(d, "decor.AverageDecorator") ==> called("decor.AverageDecorator.AverageAdjust") == old(called("decor.AverageDecorator.AverageAdjust"))
 //@ func (*Bar).TraverseDecorators
-//@   props    C02 C10
+//@   props    C02 C10 C20
 //@   requires b != nil && cb != nil
 //@   ensures  atomic: sent(b.operateState) <= old(sent(b.operateState)) + 1
+//@   ensures  accepted: sent(b.operateState) == old(sent(b.operateState)) + 1 || recvd(done(b.ctx)) > old(recvd(done(b.ctx)))
+//@   ensures  payload: sent(b.operateState) == old(sent(b.operateState)) + 1 ==> fnof(lastSent(b.operateState)) == fn("(*Bar).TraverseDecorators$1") && bound(lastSent(b.operateState), "cb") == in(cb)
 //@ func (*Bar).TraverseDecorators$1
-//@   props    C02
+//@   props    C02 C20
 //@   requires s != nil && cb != nil
+//@   loop 2   ensures visited: called("(*Bar).TraverseDecorators$1.cb") == iter(called("(*Bar).TraverseDecorators$1.cb")) + 1 && calledWith("(*Bar).TraverseDecorators$1.cb", 0) == returned("unwrap", 0) && calledWith("unwrap", 0) == d // every decorator, unwrapped, exactly once
 
 //@ func (*Bar).tryEarlyRefresh$1
 //@   props    C02 C04
 //@   requires bar != nil
 //@   assumes  otherRunning < 1<<62
+//@   ensures  other: in(bar) != b && returned("(*Bar).IsRunning", 0) ==> !result && otherRunning == old(otherRunning) + 1 // another bar still runs: stop looking, no early refresh
+//@   ensures  next: !(in(bar) != b && returned("(*Bar).IsRunning", 0)) ==> result && otherRunning == old(otherRunning)
 
 //@ func (*Bar).wSyncTable$1
 //@   props    C12 C02
 //@   requires s != nil
+//@   ensures  answered: sent(result) == old(sent(result)) + 1 && lastSent(result) == returned("(*bState).wSyncTable", 0) && calledWith("(*bState).wSyncTable", 0) == s
 
 //@ func (*Progress).New
 //@   props    C02 C09
@@ -1919,3 +1939,24 @@ package mpb
 //@   requires p != nil
 //@   ensures  forwarded: called("(*Progress).New") == old(called("(*Progress).New")) + 1 && calledWith("(*Progress).New", 0) == p && calledWith("(*Progress).New", 1) == total
 //@              && calledWith("(*Progress).New", 2) == returned("SpinnerStyle", 0) && calledWith("(*Progress).New", 3) == options && result == returned("(*Progress).New", 0)
+
+// New is NewWithContext with the background context (never cancelled) and the caller's options
+//@ func New
+//@   props    C02 C14
+//@   ensures  background: called("NewWithContext") == old(called("NewWithContext")) + 1 && calledWith("NewWithContext", 0) == returned("context.Background", 0) && calledWith("NewWithContext", 1) == options && result == returned("NewWithContext", 0)
+
+// the no-op closers of ProxyWriter: closing a writer that has no Close of its own succeeds and does nothing
+//@ func (nopWriteCloser).Close
+//@   props    C19 C02
+//@   modifies nothing
+//@   ensures  noop: result == nil
+//@ func (nopWriteCloserReaderFrom).Close
+//@   props    C19 C02
+//@   modifies nothing
+//@   ensures  noop: result == nil
+
+// the extender of a bar without one: the rows as they are
+//@ func (pState).makeBarState$1
+//@   props    C02 C04
+//@   modifies nothing
+//@   ensures  identity: result0 == rows && result1 == nil
